@@ -989,6 +989,41 @@ type sliceAtoms struct {
 	Consts   []string
 	Builtin  map[string]bool
 	FreeVars map[*ssa.FreeVar]bool
+
+	accessors map[*ssa.Function]bool // accessors looked into (their parameters are not atoms)
+}
+
+// isAccessor: a gleece function with a body of at most a few blocks that calls nothing but
+// builtins - a getter, a membership test, a field projection.
+var accessorMemo = map[*ssa.Function]bool{}
+
+func isAccessor(fn *ssa.Function) bool {
+	if r, ok := accessorMemo[fn]; ok {
+		return r
+	}
+	r := func() bool {
+		if fn.Pkg == nil || !isGleecePkg(fn.Pkg.Pkg.Path()) || fn.Blocks == nil || len(fn.Blocks) > 4 || len(fn.AnonFuncs) > 0 {
+			return false
+		}
+		n := 0
+		for _, b := range fn.Blocks {
+			for _, ins := range b.Instrs {
+				n++
+				switch x := ins.(type) {
+				case ssa.CallInstruction:
+					if _, isBuiltin := x.Common().Value.(*ssa.Builtin); !isBuiltin {
+						return false
+					}
+				case *ssa.Store, *ssa.MapUpdate, *ssa.Send, *ssa.Go, *ssa.Defer, *ssa.Panic:
+					_ = x
+					return false
+				}
+			}
+		}
+		return n <= 24
+	}()
+	accessorMemo[fn] = r
+	return r
 }
 
 func newAtoms() *sliceAtoms {
@@ -1058,6 +1093,9 @@ func backSlice(v ssa.Value, atoms *sliceAtoms, seen map[ssa.Value]bool, depth in
 				return
 			}
 		}
+		if atoms.accessors[x.Parent()] {
+			return // parameter of an accessor looked into: its arguments are followed at the call
+		}
 		atoms.Params[x] = true
 	case *ssa.Extract:
 		if call, ok := x.Tuple.(*ssa.Call); ok && curWorld != nil {
@@ -1101,6 +1139,14 @@ func backSlice(v ssa.Value, atoms *sliceAtoms, seen map[ssa.Value]bool, depth in
 		n := calleeName(x)
 		if n != "" {
 			atoms.Calls[n] = true
+		}
+		if callee := x.Call.StaticCallee(); callee != nil && isAccessor(callee) {
+			// a plain accessor: what it reads is what the caller reads through it
+			if atoms.accessors == nil {
+				atoms.accessors = map[*ssa.Function]bool{}
+			}
+			atoms.accessors[callee] = true
+			sliceResults(callee, -1, atoms, seen, depth)
 		}
 		if x.Call.IsInvoke() {
 			backSlice(x.Call.Value, atoms, seen, depth+1)
